@@ -48,11 +48,27 @@ Proof. exact single_mode_ignores. Qed.
 Print Assumptions c10_single_mode.
 
 (** the set survives everything that is not a selection action: cursor moves, page jumps, row
-    clicks, result updates (re-filtering), clears, redraws, run-number changes *)
-Theorem c10_survives : forall s o s', is_sel_action o = false -> step s o = Some s' ->
+    clicks, result updates (re-filtering), clears, redraws, run-number changes -- a result update
+    with a selector configured (the pre-select options) being the one exception, stated next *)
+Theorem c10_survives : forall s o s', is_sel_action o = false -> no_presel s o = true -> step s o = Some s' ->
   selected s' = selected s /\ multi s' = multi s.
 Proof. exact other_ops_keep_selected. Qed.
 Print Assumptions c10_survives.
+
+(** with a selector configured, a result update adds exactly the arrivals the selector picks (under
+    the current run number), in multi mode only, and only when the list is at least as long as the
+    longest one seen since the highest run number arrived (the watermark); nothing is removed *)
+Theorem c10_preselect : forall s b, SelInv s ->
+  SelInv (append_sorted_items s b) /\
+  forall k, m_contains (selected (append_sorted_items s b)) k =
+            (presel_applies s b && presel_on s && keyin k (presel_keys s b)) || m_contains (selected s) k.
+Proof. exact append_sel. Qed.
+Print Assumptions c10_preselect.
+
+(** whether a selector is configured never changes *)
+Theorem c10_selector_fixed : forall ops s s', run_ops s ops = Some s' -> selmod s' = selmod s.
+Proof. exact run_selmod. Qed.
+Print Assumptions c10_selector_fixed.
 
 (** toggling the same item again (same run, same input position) removes it again *)
 Theorem c10_retoggle_removes : forall m k v v', wf m ->
@@ -66,10 +82,10 @@ Print Assumptions c10_retoggle_removes.
 
 (** in every reachable state the map is in strict key order, so its length (the [n] counter) is
     the size of the selected set, and single mode keeps it empty *)
-Theorem c10_count : forall rev mul ops s, run_ops (init rev mul) ops = Some s ->
+Theorem c10_count : forall rev mul k ops s, run_ops (init_sel rev mul k) ops = Some s ->
   SelInv s /\ NoDup (map fst (selected s)).
 Proof.
-  intros rev mul ops s E. pose proof (run_SelInv ops _ _ (init_SelInv rev mul) E) as HI.
+  intros rev mul k ops s E. pose proof (run_SelInv ops _ _ (init_sel_SelInv rev mul k) E) as HI.
   split; [exact HI | apply wf_nodup, HI].
 Qed.
 Print Assumptions c10_count.
